@@ -131,6 +131,10 @@ pub mod verif {
     pub use crate::tree_store::page_store_verif::*;
 }
 
+/// Verification hook for C01 (`Database::verif_c01_*`), only present under `--cfg redb_verif`
+#[cfg(redb_verif)]
+mod verif_c01;
+
 // core cannot tell whether the current thread is unwinding, and redb's Drop impls consult that in
 // opposite ways, so neither constant is safe to assume. Restricted to panic = "abort" instead,
 // where nothing unwinds and panicking() below is vacuously correct.
